@@ -643,6 +643,7 @@ pub fn property() -> Property {
     Property {
         id: "C14",
         subs: vec![sub::<Orders>(), sub::<Dtrees>(), sub::<Manager>(), sub::<Lca>()],
+        fuzz: vec![],
         assumptions: vec![
             "CNFs over <= 7 variables; vtrees with <= 12 leaves",
             "excluded by construction and counted: CNFs without clauses for DTree::from_cnf (asserted by the library) and for force_order (its loop never terminates on NaN: a hang is reported as inconclusive, not as a violation); CNFs with an empty clause for force_order (usize underflow in the span computation, outside the listed domain)",
